@@ -77,10 +77,12 @@ theorem clipboard_layer_scalar (data : List Nat) (w h : Nat) (cs : List Nat)
     · split at hr
       · dsimp only at hr
         split at hr
-        · rename_i cs' hcs
-          injection hr with _ _ h3; subst h3
-          exact clipCells_scalar _ _ _ hcs
         · cases hr
+        · split at hr
+          · rename_i cs' hcs
+            injection hr with _ _ h3; subst h3
+            exact clipCells_scalar _ _ _ hcs
+          · cases hr
       · cases hr
 
 /-- IcyDraw `load_buffer` (both decoders): every 32-bit character field is rejected or is that scalar value;
